@@ -9,9 +9,6 @@ def register(reg):
     contract(reg, f'{F}:AST._safekey', P, {'self': 'ASTD', 'key': 'str'}, ret='str', verify=False,
              ensures=['result == uf_safekey(key)'],
              note='reads vars(dict) by reflection; bounded check B:C01/ast-safekey')
-    contract(reg, f'{F}:AST._define', P, {'self': 'ASTD', 'keys': 'seq', 'list_keys': 'Val'}, ret='None', verify=False,
-             modifies=['self'], ensures=['self == uf_defined(old_self, keys, list_keys)'],
-             note='generator-driven loops; bounded check B:C01/ast-define')
     # the same function proved on its loops: every listed name that is not yet a key becomes one, list names with [] (they come
     # first), the others with None; nothing else changes (C01: names of a rule are pre-bound)
     LK = 'any(uf_safekey(strval(list_keys[j])) == s for j in range(0, {n}))'
